@@ -253,6 +253,7 @@ func TestC19_PeerVersion(t *testing.T) { pbt.Run(t, "C19", "peerversion", genC19
 
 type c19Transfer struct {
 	A, B       []byte // version sets of the two instances (subsets of {0,1})
+	Prior      []byte // non-empty: the asker ran with this version set before (same identity and endpoint), contacted B, and restarted with A
 	ContentLen int    // FINDCONTENT payload size (> inline threshold => uTP)
 	Items      []int  // offered item sizes
 }
@@ -265,7 +266,11 @@ func genC19Transfer(t *rapid.T) c19Transfer {
 	for i := range items {
 		items[i] = rapid.SampledFrom([]int{0, 1, 100, 1200, 5000, 40000}).Draw(t, "ilen")
 	}
-	return c19Transfer{A: rapid.SampledFrom(sets).Draw(t, "a"), B: rapid.SampledFrom(sets).Draw(t, "b"),
+	var prior []byte
+	if rapid.IntRange(0, 2).Draw(t, "hasprior") == 0 {
+		prior = rapid.SampledFrom([][]byte{{0}, {1}, {0, 1}}).Draw(t, "prior")
+	}
+	return c19Transfer{A: rapid.SampledFrom(sets).Draw(t, "a"), B: rapid.SampledFrom(sets).Draw(t, "b"), Prior: prior,
 		ContentLen: rapid.SampledFrom([]int{1200, 1500, 4000, 30000, 120000}).Draw(t, "clen"), Items: items}
 }
 
@@ -283,16 +288,45 @@ func contentKey(i int) []byte {
 
 func runC19Transfer(p c19Transfer, c *stats.Case) error {
 	hub := simnet.NewHub()
-	a, err := pp.NewLive(hub, pp.LiveOpts{KeyIdx: 11, Port: nextPort(), Versions: p.A, UtpFast: true})
-	if err != nil {
-		return fmt.Errorf("harness: %v", err)
-	}
-	defer a.Stop()
 	b, err := pp.NewLive(hub, pp.LiveOpts{KeyIdx: 12, Port: nextPort(), Versions: p.B, UtpFast: true})
 	if err != nil {
 		return fmt.Errorf("harness: %v", err)
 	}
 	defer b.Stop()
+	portA := nextPort()
+	var priorSeq uint64
+	if len(p.Prior) > 0 {
+		// history: the same node (identity, endpoint) advertised another version set earlier and B has that
+		// record in its table; after the restart its record is newer and B learns it in the handshake
+		a0, err := pp.NewLive(hub, pp.LiveOpts{KeyIdx: 11, Port: portA, Versions: p.Prior, UtpFast: true})
+		if err != nil {
+			return fmt.Errorf("harness: %v", err)
+		}
+		_, perr := a0.P.VerifPing(b.Node())
+		inTable := false
+		for _, n := range b.P.VerifTable().VerifNodeList() {
+			if n.ID() == a0.Node().ID() {
+				inTable = true
+			}
+		}
+		priorSeq = a0.Node().Seq()
+		a0.Stop()
+		if perr == nil && inTable && !bytes.Equal(p.Prior, p.A) {
+			c.NT("restarted-with-other-version-set")
+		}
+		// record sequence numbers start from the millisecond clock and grow by one per re-signing: a restart
+		// that takes a few dozen milliseconds comes back with a newer record, as a real restart does
+		time.Sleep(40 * time.Millisecond)
+	}
+	a, err := pp.NewLive(hub, pp.LiveOpts{KeyIdx: 11, Port: portA, Versions: p.A, UtpFast: true})
+	if err != nil {
+		return fmt.Errorf("harness: %v", err)
+	}
+	defer a.Stop()
+	if len(p.Prior) > 0 && a.Node().Seq() <= priorSeq {
+		c.Class("harness:restarted-record-not-newer")
+		return nil // B may rightly keep the record it has
+	}
 	common, ok := maxCommon(p.A, p.B)
 	sa, sb := append([]byte{}, p.A...), append([]byte{}, p.B...)
 	sort.Slice(sa, func(i, j int) bool { return sa[i] < sa[j] })
@@ -367,7 +401,7 @@ func runC19Transfer(p c19Transfer, c *stats.Case) error {
 		}
 		c.Class("offer-transferred")
 	case <-time.After(20 * time.Second):
-		stats.For("C19").Count("inconclusive-offer-timeout", 1)
+		stats.For("C19").Count("inconclusive:offer-timeout", 1)
 		return nil
 	}
 
@@ -408,7 +442,7 @@ func c19FindContent(a, b *pp.Live, p c19Transfer, common uint8, c *stats.Case) e
 			c.NT("utp-findcontent")
 		}
 	case <-time.After(30 * time.Second):
-		stats.For("C19").Count("inconclusive-findcontent-timeout", 1)
+		stats.For("C19").Count("inconclusive:findcontent-timeout", 1)
 	}
 	return nil
 }
